@@ -138,15 +138,17 @@ PROPS = {
         "quick": [
             {"harness": "H_C06_q", "cases": list(range(6)), "scale": SC},
             {"harness": "H_C06_sw", "cases": list(range(6)), "scale": SC},
+            {"harness": "H_C06_compact", "cases": list(range(4)), "scale": SC},
         ],
         "thorough": [
+            {"harness": "H_C06_compact", "cases": list(range(4)), "scale": SC},
             {"harness": "H_C06_t", "cases": list(range(6)), "scale": SC},
             {"harness": "H_C06_sw", "cases": list(range(6)), "scale": SC},
             {"harness": "H_C06_mid", "cases": list(range(6)), "scale": SC},
             {"harness": "H_C06_swmid", "cases": list(range(6)), "scale": SC},
         ],
-        "covers": {"quick": ["C06.done", "C06.durability-point", "C06.rolled-over", "power.all-unsynced-lost", "power.one-file-loses-suffix", "power.nothing-lost"]},
-        "bounds": {"quick": "2 keys; prefix 2 puts then 3 symbolic steps from {put, delete, compact, sync} (explicit-Sync mode) / 2 steps in sync-after-write mode; power failure between any two operations; surviving prefixes: all kept | all unsynced data lost | one symbolic segment file keeps a symbolic proper prefix of its pending writes/truncations (last write cut at a 512-aligned offset) while the others keep everything",
+        "covers": {"quick": ["C06c.done", "C06c.power-failure-inside-compaction", "C06.done", "C06.durability-point", "C06.rolled-over", "power.all-unsynced-lost", "power.one-file-loses-suffix", "power.nothing-lost"]},
+        "bounds": {"quick": "compaction scenario: 2 synced puts, 2 unsynced symbolic writes, Compact with a power failure at every mutating FS call inside it; general scenario: 2 keys; prefix 2 puts then 3 symbolic steps from {put, delete, compact, sync} (explicit-Sync mode) / 2 steps in sync-after-write mode; power failure between any two operations; surviving prefixes: all kept | all unsynced data lost | one symbolic segment file keeps a symbolic proper prefix of its pending writes/truncations (last write cut at a 512-aligned offset) while the others keep everything",
                    "thorough": "4 steps; additionally power failure at every mutating FS call inside an operation"},
         "assumptions": COMMON_ASSUME + ["power-loss model of the property implemented by a harness FileSystem around fs.Mem: directory operations durable and ordered, file data/length volatile until File.Sync"],
         "outside": "combinations where two or more files each lose a different proper suffix, more than 2 keys, histories longer than the bound, real device caches",
@@ -155,14 +157,16 @@ PROPS = {
         "quick": [
             {"harness": "H_C09_q", "cases": list(range(7)), "scale": SC},
             {"harness": "H_C09_sw", "cases": list(range(7)), "scale": SC},
+            {"harness": "H_C09_s2", "cases": list(range(5)), "scale": SC},
         ],
         "thorough": [
+            {"harness": "H_C09_s2", "cases": list(range(5)), "scale": SC},
             {"harness": "H_C09_t", "cases": list(range(7)), "scale": SC},
             {"harness": "H_C09_sw", "cases": list(range(7)), "scale": SC},
             {"harness": "H_C09_mid", "cases": list(range(7)), "scale": SC},
         ],
-        "covers": {"quick": ["C09.done", "power.nothing-lost"]},
-        "bounds": {"quick": "2 keys; prefix 2 puts + 1 symbolic step from {put, delete, compact, sync, close+open}, Close, power failure right after Close; surviving prefixes as C06 but over all files (index, metadata, segments); both sync modes",
+        "covers": {"quick": ["C09.done", "C09b.done", "power.nothing-lost"]},
+        "bounds": {"quick": "2 keys; (a) prefix 2 puts + 1 symbolic step from {put, delete, compact, sync, close+open}, Close, power failure right after Close; (b) the closing session is the second one on the directory: puts, Close, Open, 1 symbolic step, Close, power failure; surviving prefixes as C06 but over all files (index, metadata, segments); both sync modes",
                    "thorough": "2 steps; failure also at every mutating FS call of the next Open"},
         "assumptions": COMMON_ASSUME + ["power-loss model as C06"],
         "outside": "as C06",
@@ -217,5 +221,46 @@ PROPS = {
                    "thorough": "2 writer operations; additionally a crash at any mutating FS call of the concurrent execution"},
         "assumptions": COMMON_ASSUME + ["threads: context switches at lock acquisitions, yields, thread exit (sound given the lock discipline checked by C10's monitor)"],
         "outside": "more than one concurrent writer thread, background-triggered compaction, more than 3 keys",
+    },
+    "C12": {
+        "quick": [
+            {"harness": "H_C12_q", "cases": list(range(12)), "scale": SC, "chunk": 1},
+        ],
+        "thorough": [
+            {"harness": "H_C12_t", "cases": list(range(36)), "scale": SC, "chunk": 3},
+            {"harness": "H_C12_t3", "cases": list(range(12)), "scale": SC, "chunk": 1, "maxsec": 3300},
+        ],
+        "covers": {"quick": ["C12.done", "C12.writer-ran-during-backup"]},
+        "bounds": {"quick": "3 keys, 2 prefix shapes (2-3 segments, last one active, with and without room left), 1 hash-layout shape (thorough: 3 prefixes x 2 layouts); thread T1 = Backup, thread T2 = 2 symbolic Put/Delete (rolling the log over during the backup); schedule symbolic at lock acquisitions and at the points where Backup holds no lock (before the size capture, before each segment copy, before the lock file is created); the copy is opened (recovery) and must equal the reference after a prefix of T2's operations between those acknowledged before the call and those started before the return",
+                   "thorough": "3 writer operations"},
+        "assumptions": COMMON_ASSUME + ["threads as C05; Backup's file copy is one atomic step per segment (io.Copy/CopyN executed from stdlib SSA, segments smaller than the 32 KiB copy buffer)"],
+        "outside": "background compaction worker (excluded by maintenanceMu), OS-level copy fast paths, more than one writer",
+    },
+    "C07": {
+        "quick": [
+            {"harness": "H_C07_q", "cases": list(range(16)), "scale": SC, "chunk": 2},
+            {"harness": "H_C07_c", "cases": list(range(8)), "scale": SC, "chunk": 1},
+        ],
+        "thorough": [
+            {"harness": "H_C07_t22", "cases": list(range(24)), "scale": SC, "chunk": 1, "maxsec": 3300},
+            {"harness": "H_C07_c", "cases": list(range(16)), "scale": SC, "chunk": 2},
+            {"harness": "H_C07_t", "cases": list(range(16)), "scale": SC, "chunk": 1, "maxsec": 3300},
+        ],
+        "covers": {"quick": ["C07.done"]},
+        "replay": False,
+        "bounds": {"quick": "threads with 2 + 1 operations (kind from {Put, Delete, Get, Has} and key symbolic choices) over 2 keys, and 2 threads x 1 operation with a concurrent Compact; lockset monitor on; schedule symbolic at every lock acquisition; after join one disjunctive SMT obligation: some order of the operations that respects their call/return stamps explains every result under register-with-delete semantics",
+                   "thorough": "2 x 2 operations with GetAppend and Count as well; 3 threads (2 + 2 + 1 operations)"},
+        "assumptions": COMMON_ASSUME + ["context switches only at lock acquisitions / thread exit: sound only together with C10's lockset monitor (every shared access inside a critical section)", "schedule-dependent counterexamples are not replayed natively (no hook inside Put/Get to force the schedule)"],
+        "outside": "Go memory-model effects below lock granularity, more than 3 threads, Backup/Sync/Items as concurrent observers (see C10, C11, C12), background worker",
+    },
+    "C10": {
+        "quick": [
+            {"harness": "H_C10_race", "cases": list(range(13)), "scale": SC, "chunk": 1, "replay": False},
+            {"harness": "H_C10_closed", "cases": list(range(13)), "scale": SC, "chunk": 13},
+        ],
+        "covers": {"quick": ["C10.done", "C10.close-raced", "C10c.done"]},
+        "bounds": {"quick": "every ordered pair of public methods (Put, Delete, Get, GetAppend, Has, Count, Items/Next, Sync, Compact, FileSize, Metrics, Backup, Close) run by two threads on disjoint keys, schedule symbolic at lock acquisitions; lockset monitor (per heap cell allocated by pogreb code: a write and another access from different threads with no common lock is a violation); implicit no-panic / no-deadlock obligations; Close racing: the other operation fails or its effect is in the reopened database; every public method once on a closed database"},
+        "assumptions": COMMON_ASSUME + ["the lockset discipline is a sufficient condition checked on every explored path, not the Go race detector's verdict; happens-before through channels/WaitGroup is not modelled"],
+        "outside": "the Go runtime's own race detection and memory model, real SIGSEGV/SIGBUS on unmapped memory, goroutine leaks and the ticker-driven background worker (time/context/select not modelled: all harnesses use interval 0), races inside a user-supplied FileSystem (fs.Mem's own map is not monitored), more than 2 threads",
     },
 }
